@@ -281,6 +281,12 @@ func (gd *geomDecoder) decodePoint() (orb.Geometry, error) {
 		return gd.NextPoint()
 	}
 
+	// cmdAndCount does not bound the count of a closePath command, and the command id is not checked here:
+	// never pre-allocate for more points than the remaining data can hold.
+	if v := gd.used + int(2*count); gd.count < v {
+		return nil, fmt.Errorf("data cut short: needed %d, have %d", v, gd.count)
+	}
+
 	mp := make(orb.MultiPoint, 0, count)
 	for i := uint32(0); i < count; i++ {
 		p, err := gd.NextPoint()
